@@ -678,13 +678,13 @@ TOP:
 				ov = ov.Elem()
 			}
 			if ov.Kind() == reflect.Struct {
-				if fv := ov.FieldByName(fd.goField); fv.IsValid() {
+				if fv := ov.FieldByName(goField); fv.IsValid() {
 					value = fv.Interface()
 				}
 			}
 		case method != nil:
 			args := root.formReflectArgs(ov, vars, field)
-			mva := fd.method.Call(args)
+			mva := method.Call(args)
 			switch len(mva) {
 			case 1:
 				value = mva[0].Interface()
